@@ -20,7 +20,7 @@ import (
 // c20Histories: the C01 histories with at most maxOps DML statements.
 func c20Histories(seed *CrashSeed, thorough bool, maxOps int) [][]HOp {
 	var out [][]HOp
-	if strings.HasPrefix(seed.Name, "huge") || strings.HasSuffix(seed.Name, "/after-recovery") {
+	if strings.HasPrefix(seed.Name, "huge") || strings.HasPrefix(seed.Name, "long") || strings.HasSuffix(seed.Name, "/after-recovery") {
 		return nil // the nested enumeration over a 600 KB log is left to C01/C02/C08
 	}
 	for _, h := range crashHistories(seed, thorough) {
